@@ -127,7 +127,15 @@ class _Text(str):
 _SUBS: dict = {}
 
 
+_SUBS_LOCK = __import__("threading").Lock()
+
+
 def subclasses():
+    with _SUBS_LOCK:
+        return _subclasses()
+
+
+def _subclasses():
     """User-style subclasses of the three classes: one that only adds a helper, and ones that change the
     documented defaults through their own __init__ (the documented way to do so)."""
     if not _SUBS:
